@@ -38,7 +38,8 @@ FamilyVals(w) ==
   \cup { Pad(<<lo>>, w) : lo \in 0..255 }
 FamilyStrs ==
   { [i \in 1..n |-> IF i = 1 THEN tag ELSE IF i = n THEN t ELSE f] :
-       n \in 1..18, tag \in (IF Tier = "quick" THEN {0, 1, 2, 3, 7, 11, 15, 19, 23, 51, 55, 252, 253, 254, 255} ELSE AllBytes),
+       n \in 1..18, tag \in (IF Tier = "quick" THEN {0, 1, 2, 3, 7, 11, 15, 19, 23, 51, 55, 252, 253, 254, 255}
+                         ELSE { t \in AllBytes : t % 4 = 3 \/ t \in {0, 1, 2, 4, 5, 6, 252, 253, 254} }),   \* every length tag
        t \in {0, 1, 63, 64, 128, 255}, f \in {0, 255} }
 
 Init ==
